@@ -30,7 +30,7 @@ func (p *Prop) Meta() simkit.Meta {
 		Real: []string{"stats.Sample.{Mean,Variance,StdDev,GeoMean,Sum,Weight,Bounds,Sort,Copy}", "stats.{Mean,Variance,StdDev,GeoMean,Bounds}", "vec.{Sum,Linspace,Logspace,Map,Vectorize,Concat}"},
 		Stub: []string{"owner of the data (event source)"},
 		Assumptions: []string{
-			"values finite with |x| in [1e-6,1e12] or 0; weights finite, non-negative, with positive total (for Mean/GeoMean)",
+			"values finite with |x| in [1e-6,1e12] or 0, or (family wide-positive) positive over the whole double range 1e-300..1e300, queried only for statistics that involve no squares; weights finite, non-negative, with positive total, optionally all scaled by 2^(+-400) or 2^(+-900) - but extreme weights are not combined with wide-range values (the product (x-m)*w in the incremental weighted mean overflows there: an overflow corner of the formula, not what the statement is about)",
 			"unweighted-only methods (Variance, StdDev) are not called on weighted samples (documented panic); weighted GeoMean is not called with non-positive values",
 			"the Sorted flag is only ever set on data that is ascending",
 			"nothing is demanded of Mean/Variance/Bounds of an empty sample or of Variance with fewer than 2 values beyond not panicking (the exact value is undefined)",
@@ -43,16 +43,17 @@ func (p *Prop) Meta() simkit.Meta {
 }
 
 type obj struct {
-	wide   bool // values span the whole double range: squares overflow, so no Variance/StdDev
-	s      *stats.Sample
-	shXs   []float64 // shadow copy (harness-owned)
-	shWs   []float64
-	shNilW bool
-	shSort bool
-	acc    *refmodel.Acc // cached exact summary of the multiset (nil = stale)
-	lnMean *big.Float    // cached exact weighted mean of ln x
-	wkind  int           // 0 none, 1 integer, 2 real
-	nonpos bool
+	wide        bool // values span the whole double range: squares overflow, so no Variance/StdDev
+	s           *stats.Sample
+	shXs        []float64 // shadow copy (harness-owned)
+	shWs        []float64
+	shNilW      bool
+	shSort      bool
+	acc         *refmodel.Acc // cached exact summary of the multiset (nil = stale)
+	lnMean      *big.Float    // cached exact weighted mean of ln x
+	wkind       int           // 0 none, 1 integer, 2 real
+	nonpos      bool
+	nonposValid bool
 }
 
 type ctx struct {
@@ -127,15 +128,35 @@ func (o *obj) refresh() {
 
 func (o *obj) stale() {
 	o.acc, o.lnMean = nil, nil
-	// nonpos: a non-positive value that counts (has non-zero weight). A
-	// non-positive value with weight zero is "repeated zero times": it must be
-	// ignored by the weighted GeoMean like by everything else.
-	o.nonpos = false
-	for i, x := range o.s.Xs {
-		if x <= 0 && (o.s.Weights == nil || o.s.Weights[i] != 0) {
-			o.nonpos = true
-		}
+	o.nonposValid = false
+}
+
+// The model is computed from the harness-owned shadow copy, never from the
+// object's live slices: if the library corrupts an object behind the harness's
+// back (aliasing), the model stays what the history says it should be and the
+// comparison fails as a violation instead of the harness tripping over it.
+func (o *obj) modelWeights() []float64 {
+	if o.shNilW {
+		return nil
 	}
+	return o.shWs
+}
+
+// hasNonpos: a non-positive value that counts (has non-zero weight). A
+// non-positive value with weight zero is "repeated zero times": it must be
+// ignored by the weighted GeoMean like by everything else.
+func (o *obj) hasNonpos() bool {
+	if !o.nonposValid {
+		o.nonpos = false
+		ws := o.modelWeights()
+		for i, x := range o.shXs {
+			if x <= 0 && (ws == nil || ws[i] != 0) {
+				o.nonpos = true
+			}
+		}
+		o.nonposValid = true
+	}
+	return o.nonpos
 }
 
 func bitsEq(a, b []float64) bool {
@@ -166,10 +187,11 @@ func (c *ctx) untouched(target int, op string) {
 func (o *obj) exact() *refmodel.Acc {
 	if o.acc == nil {
 		a := refmodel.NewAcc()
-		for i, x := range o.s.Xs {
+		ws := o.modelWeights()
+		for i, x := range o.shXs {
 			w := 1.0
-			if o.s.Weights != nil {
-				w = o.s.Weights[i]
+			if ws != nil {
+				w = ws[i]
 			}
 			a.AddW(x, w)
 		}
@@ -195,10 +217,14 @@ func (o *obj) exactLnMean() *big.Float {
 			prod.SetInt64(1)
 			cnt = 0
 		}
-		for i, x := range o.s.Xs {
+		ws := o.modelWeights()
+		for i, x := range o.shXs {
 			w := 1
-			if o.s.Weights != nil {
-				w = int(o.s.Weights[i])
+			if ws != nil {
+				w = int(ws[i])
+			}
+			if w == 0 {
+				continue
 			}
 			bx := refmodel.BF(x)
 			for k := 0; k < w; k++ {
@@ -212,8 +238,8 @@ func (o *obj) exactLnMean() *big.Float {
 		}
 		flush()
 	} else {
-		for i, x := range o.s.Xs {
-			w := refmodel.BF(o.s.Weights[i])
+		for i, x := range o.shXs {
+			w := refmodel.BF(o.shWs[i])
 			if w.Sign() == 0 {
 				continue
 			}
@@ -300,6 +326,12 @@ func (c *ctx) create() {
 	default:
 		n = g.BoundarySize(0, 200)
 	}
+	if g.Chance(1, 40) {
+		// beyond the stated 0..200 now and then: thresholds at which an
+		// implementation might switch algorithm (256, 512, 1024)
+		n = []int{255, 256, 257, 511, 512, 513, 1023, 1024, 1025}[g.Intn(9)]
+		c.probe("sample_size_beyond_200")
+	}
 	xs, fam := c.genXs(n)
 	o := &obj{s: &stats.Sample{Xs: xs}, wide: fam == "wide-positive"}
 	o.wkind = g.Pick(3, 3, 2)
@@ -331,6 +363,18 @@ func (c *ctx) create() {
 			ws[i] = g.Uniform(0.01, 10)
 		}
 		o.s.Weights = ws
+	}
+	if o.s.Weights != nil && !o.wide && g.Chance(1, 8) {
+		// weights are only meaningful up to a common factor: scale them all by an
+		// extreme (but exactly representable) power of two
+		sc := math.Ldexp(1, []int{400, -400, 900, -900}[g.Intn(4)])
+		for i := range o.s.Weights {
+			o.s.Weights[i] *= sc
+		}
+		if o.wkind == 1 {
+			o.wkind = 2 // no longer small integers: repetition/expansion does not apply
+		}
+		c.probe("weights_scaled_by_extreme_power_of_two")
 	}
 	asc := g.Chance(1, 4)
 	if asc {
@@ -478,7 +522,7 @@ func (c *ctx) copyEv(k int) {
 		c.fail("copy", "Copy", "contents", "Copy is not equal to the original")
 		return
 	}
-	n := &obj{s: cp, wkind: o.wkind, nonpos: o.nonpos, acc: nil, wide: o.wide}
+	n := &obj{s: cp, wkind: o.wkind, acc: nil, wide: o.wide}
 	n.stale()
 	n.refresh()
 	if len(c.pool) >= 6 {
@@ -513,7 +557,7 @@ func (c *ctx) mutate(k int) {
 	} else {
 		if o.wide {
 			o.s.Xs[i] = math.Pow(10, c.g.Uniform(-300, 300))
-		} else if o.nonpos || c.g.Chance(1, 4) {
+		} else if o.hasNonpos() || c.g.Chance(1, 4) {
 			o.s.Xs[i] = float64(c.g.Range(-3, 9))
 		} else {
 			o.s.Xs[i] = c.g.Uniform(0.001, 1000)
@@ -530,6 +574,52 @@ func (c *ctx) mutate(k int) {
 	o.stale()
 	o.refresh()
 	c.untouched(k, "caller mutation")
+}
+
+// grow is the caller appending one (value, weight) to an object it owns - the
+// most ordinary way to keep using a sample, including one obtained from Copy.
+func (c *ctx) grow(k int) {
+	o := c.pool[k]
+	if len(o.s.Xs) > 300 {
+		return
+	}
+	var v float64
+	switch {
+	case o.wide:
+		v = math.Pow(10, c.g.Uniform(-300, 300))
+	case o.hasNonpos():
+		v = float64(c.g.Range(-3, 9))
+	default:
+		v = c.g.Uniform(0.001, 1000)
+	}
+	o.s.Xs = append(o.s.Xs, v)
+	if o.s.Weights != nil {
+		w := c.g.Uniform(0.01, 10)
+		if o.wkind == 1 {
+			w = float64(c.g.Range(1, 4))
+		}
+		o.s.Weights = append(o.s.Weights, w)
+	}
+	o.s.Sorted = false
+	c.logf("caller appends a value to obj%d [%s]", k, o.flags())
+	c.hash.Str("G" + o.flags())
+	c.probe("caller_appends_to_object")
+	c.changed = true
+	c.nontriv = true
+	// the shadow grows by exactly the appended pair: anything else the append
+	// disturbed (storage shared between Xs and Weights, or with another object)
+	// shows as a difference between object and shadow
+	o.shXs = append(o.shXs, v)
+	if o.s.Weights != nil {
+		o.shWs = append(o.shWs, o.s.Weights[len(o.s.Weights)-1])
+	}
+	o.shSort = false
+	o.stale()
+	if !bitsEq(o.s.Xs, o.shXs) || !bitsEq(o.s.Weights, o.shWs) {
+		c.fail("aliasing", "append", "self-aliasing", "appending a value to obj%d changed other elements of the same object (its Xs and Weights must not share storage)", k)
+		return
+	}
+	c.untouched(k, "caller append")
 }
 
 func (c *ctx) setSorted(k int) {
@@ -685,7 +775,7 @@ func (c *ctx) query(k int) {
 			c.cmpAbs("StdDev", sig, k, got, refmodel.Sqrt(a.Var()), a.TolStd())
 		}
 	case 3:
-		if weighted && o.nonpos {
+		if weighted && o.hasNonpos() {
 			return
 		}
 		if n > 60 && c.g.Chance(2, 3) {
@@ -708,7 +798,7 @@ func (c *ctx) query(k int) {
 				}
 			}
 		}
-		if o.nonpos {
+		if o.hasNonpos() {
 			c.probe("geomean_nonpositive")
 			if !math.IsNaN(got) {
 				c.fail("GeoMean", "GeoMean", sig+"/nonpositive", "obj%d: GeoMean=%v for unweighted data containing a non-positive value, want NaN", k, got)
@@ -932,7 +1022,9 @@ func (p *Prop) Run(t *simhook.Tape, opt simkit.RunOpt) *simkit.RunResult {
 		c.create()
 		for e := 0; e < nev && c.viol == nil; e++ {
 			k := g.Intn(len(c.pool))
-			switch g.Pick(2, 3, 3, 3, 1, 2, 1, 12, 2) {
+			switch g.Pick(2, 3, 3, 3, 1, 2, 1, 12, 2, 2) {
+			case 9:
+				c.grow(k)
 			case 0:
 				c.create()
 			case 1:
